@@ -150,6 +150,32 @@ func (ff *FuncFacts) OriginsT(v ssa.Value, tr Transparent) []Origin {
 					walk(r.V, names+p, depth+1)
 					return
 				}
+				if m, ok := ff.agg[x]; ok && path != "" {
+					best := ""
+					for k := range m {
+						if (path == k || strings.HasPrefix(path, k+".") || strings.HasPrefix(path, k+"#") || strings.HasPrefix(path, k+"[")) && len(k) > len(best) {
+							best = k
+						}
+					}
+					if best != "" {
+						if m[best] == unknownValue {
+							emit(Origin{"local", "?", path, x})
+							return
+						}
+						walk(m[best], path[len(best):], depth+1)
+						return
+					}
+				}
+				if r, ok := ff.aggBase[x]; ok {
+					t := r.V.Type()
+					var names string
+					for _, fi := range r.Rest {
+						names += "." + fieldName(t, fi)
+						t = fieldType(t, fi)
+					}
+					walk(r.V, names+path, depth+1)
+					return
+				}
 				if g, ok := x.X.(*ssa.Global); ok {
 					emit(Origin{"global", globalName(g), path, x})
 					return
@@ -167,8 +193,18 @@ func (ff *FuncFacts) OriginsT(v ssa.Value, tr Transparent) []Origin {
 		case *ssa.Call:
 			if tr != nil {
 				if next := tr(x); next != nil {
+					// a transparent call maps its (first) result to its operands: drop the
+					// tuple-extract marker of `v, err := f(x)`
+					np := path
+					if strings.HasPrefix(np, "#") {
+						j := 1
+						for j < len(np) && np[j] >= '0' && np[j] <= '9' {
+							j++
+						}
+						np = np[j:]
+					}
 					for _, n := range next {
-						walk(n, path, depth+1)
+						walk(n, np, depth+1)
 					}
 					return
 				}
